@@ -9,7 +9,7 @@ ALL_INV = ["ReadyClosed", "EvictionSound", "DoneWhenSettled", "NoOutputAfterCanc
 
 
 def mc_cfg(invs, harvest=True):
-    s = 'SPECIFICATION MSpec\nCONSTANT Sched = "any"\n'
+    s = 'SPECIFICATION MSpec\nCONSTANT Sched = "any"\nCONSTANT KFS = {}\n'
     for i in invs:
         s += f"INVARIANT {i}\n"
     if harvest:
@@ -156,7 +156,7 @@ def regress_round(run, group):
 
 def report_known(run):
     """print KNOWN-FINDING lines for the findings of this property that the run actually hit"""
-    hits = {"D9": run.kfhits[0], "D10": run.kfhits[1]}
+    hits = {"D9": run.kfhits[0], "D10": run.kfhits[1], "D12": run.kfhits[2]}
     for f in lib.kf_for(run.prop):
         if hits.get(f["id"], 0) > 0:
             run.known(f)
@@ -170,9 +170,12 @@ BASE_ASSUME = [
 
 
 def c04(run):
-    run.assumptions = BASE_ASSUME + ["stream.then_stream (flatten_unordered) is outside the enumerated family"]
+    run.assumptions = BASE_ASSUME + ["at most one then_stream per chain; on a stream root only pure maps come before it"]
     q = run.quick
     mc_and_replay(run, "cmd1", 5 if q else 7, ALL_INV, ["direct", "stream"], cap=4000 if q else 40000)
+    # then_stream: RequestBuilder's (sequential) and StreamBuilder's (flatten_unordered, modelled with its
+    # ready-to-run queue and wrapped wakers)
+    mc_and_replay(run, "flat1", 5 if q else 7, ALL_INV, ["direct", "stream"], cap=2500 if q else 40000)
     random_round(run, "cmd", run.seed, 800 if q else 8000, ["direct", "stream"], "cmd", 3 if q else 4, 16,
                  selftest=True)
     random_round(run, "mixed", run.seed + 1, 400 if q else 4000, ["direct"], "mixed", 2 if q else 3, 16)
@@ -188,6 +191,10 @@ def c07(run):
     mc_and_replay(run, "scripts2" if q else "scripts3", 6 if q else 7, ALL_INV, ["direct"], cap=4000 if q else 60000)
     random_round(run, "script", run.seed, 1000 if q else 10000, ["direct", "stream"], "script", 2, 18,
                  budget=8 if q else 10, selftest=True)
+    # flatten_unordered keeps the waker it was polled with: the model-checked (strict) model evicts a task
+    # stuck in it, the code does not (known deviation D12, admitted by the trace specification and counted)
+    mc_and_replay(run, "flat1", 5 if q else 7, ALL_INV, ["direct", "core"], cap=2500 if q else 40000)
+    report_known(run)
 
 
 def c06(run):
@@ -263,6 +270,7 @@ def c13(run):
     # long histories: many event/response cycles per core
     random_round(run, "long", run.seed, 60 if q else 400, ["core", "bridge_bin", "bridge_json"], "mixed", 2,
                  300 if q else 2000, selftest=True)
+    mc_and_replay(run, "flat1", 5 if q else 6, ["Released"], ["core"], cap=1500 if q else 20000)
     # many different programs with aborts and drops, medium length (occupancy after every call)
     random_round(run, "broad", run.seed + 9, 900 if q else 9000, ["direct", "core", "bridge_bin"], "mixed", 3, 30)
     # requests spent by an undecodable response must be forgotten as well
@@ -273,7 +281,7 @@ def c13(run):
     legacy_timer(run)
     # findings of C13 are reported whenever the deviation was exercised
     for f in lib.kf_for("C13"):
-        if {"D9": run.kfhits[0], "D10": run.kfhits[1]}.get(f["id"], 0) > 0:
+        if {"D9": run.kfhits[0], "D10": run.kfhits[1], "D12": run.kfhits[2]}.get(f["id"], 0) > 0:
             run.known(f)
 
 
@@ -684,6 +692,24 @@ def c18(run):
         if rc != 0:
             raise lib.ToolError("timer harness failed: " + o[-2000:])
         lib.validate_simple(run, "Trace_Timer", tp, consts=f"CONSTANT N = {n}\n", label=f"replay[N={n}]")
+        # Trace_Timer's `seen` (ids already used in this process) starts empty in every chunk of a long
+        # trace: uniqueness across chunks is stitched here
+        ids, dup = set(), None
+        with open(tp) as f:
+            for ln, l in enumerate(f, 1):
+                if '"eff_start"' in l:
+                    for o in json.loads(l).get("outs", []):
+                        if o.get("k") == "eff_start":
+                            if o["id"] in ids and dup is None:
+                                dup = (ln, o["id"])
+                            ids.add(o["id"])
+        if dup:
+            run.violations += 1
+            p = os.path.join(lib.WORK, "replay", f"{run.prop}-{run.violations}.json")
+            with open(p, "w") as f:
+                json.dump({"kind": "timer-id-reuse", "property": run.prop, "trace": tp, "line": dup[0], "id": dup[1]}, f)
+            print(f"VIOLATION property={run.prop} replay={p}")
+            print(f"  timer id {dup[1]} handed out twice in one process (trace line {dup[0]})")
         total += len(scheds)
         if n == 1:
             # binding self-test: a corrupted outcome must be rejected
